@@ -448,7 +448,6 @@ package pfcp
 // ---------------------------------------------------------------------------------------------
 // Buffered packet queues (C13) and session close (C01, C05, C12, C13)
 
-
 //@ func (s *Sess) Close() (usars []report.USAReport)
 //@   requires sessOK(s)
 //@   ensures [withdrawn] forall k RuleKey :: k.seid == s.LocalID ==> !(k in DP)
@@ -548,7 +547,6 @@ package pfcp
 
 // ---------------------------------------------------------------------------------------------
 // Nodes: sessions per control-plane node, session release
-
 
 // dpLive(n): every rule in the data plane, and every recorded creation, belongs to a live session
 //@ opaque pred dpLive(n *LocalNode) = (forall k RuleKey :: k in DP ==> live(n, k.seid)) && (forall k RuleKey :: k in CREATED ==> live(n, k.seid))
